@@ -753,3 +753,266 @@ func ruleSaveTruncate(r *Run) {
 	}
 	r.Min("file_creations_in_save", n, 1)
 }
+
+// ---------------------------------------------------------------------------
+// R-SKIP-BALANCED (C04, C06): the routine that skips an unknown element must balance start and end
+// tags.  Stopping at the first end tag with the element's own name ends too early when the
+// element contains a nested element of the same name (table in table in table, AlternateContent in
+// AlternateContent): the caller then takes the rest of the real element for unknown content.
+// Accepted shapes: a depth counter incremented in the StartElement case and decremented in the
+// EndElement case (both feeding the same loop-carried variable), or recursion in the StartElement
+// case.
+// ---------------------------------------------------------------------------
+
+func ruleSkipBalanced(r *Run) {
+	p := r.P
+	fn := r.mustFunc(pkgDoc, "(*Document).skipElement")
+	if fn == nil {
+		return
+	}
+	var startRegion, endRegion map[*ssa.BasicBlock]bool
+	allInstrs(fn, func(in ssa.Instruction) {
+		ta, ok := in.(*ssa.TypeAssert)
+		if !ok || !ta.CommaOk {
+			return
+		}
+		var okIf *ssa.If
+		if ta.Referrers() != nil {
+			for _, u := range *ta.Referrers() {
+				if ex, ok := u.(*ssa.Extract); ok && ex.Index == 1 && ex.Referrers() != nil {
+					for _, u2 := range *ex.Referrers() {
+						if x, ok := u2.(*ssa.If); ok {
+							okIf = x
+						}
+					}
+				}
+			}
+		}
+		if okIf == nil {
+			return
+		}
+		region := edgeRegion(okIf.Block(), okIf.Block().Succs[0])
+		if len(region) == 0 {
+			region = map[*ssa.BasicBlock]bool{okIf.Block().Succs[0]: true}
+		}
+		switch {
+		case typeIs(ta.AssertedType, "encoding/xml", "StartElement"):
+			startRegion = region
+		case typeIs(ta.AssertedType, "encoding/xml", "EndElement"):
+			endRegion = region
+		}
+	})
+	okc, why := false, ""
+	switch {
+	case startRegion == nil:
+		why = "it has no case for xml.StartElement: nested elements are not counted"
+	default:
+		// recursion in the StartElement case
+		for b := range startRegion {
+			for _, in := range b.Instrs {
+				if c, ok := in.(ssa.CallInstruction); ok && staticCallee(c) == fn {
+					okc = true
+				}
+			}
+		}
+		// or a counter: header phi with +c from the start region and -c from the end region
+		if !okc && endRegion != nil {
+			for _, l := range naturalLoops(fn) {
+				for _, in := range l.Header.Instrs {
+					ph, ok := in.(*ssa.Phi)
+					if !ok {
+						continue
+					}
+					inc, dec := false, false
+					for _, e := range ph.Edges {
+						bo, ok := e.(*ssa.BinOp)
+						if !ok || bo.X != ssa.Value(ph) {
+							continue
+						}
+						if _, isC := constInt(bo.Y); !isC {
+							continue
+						}
+						if bo.Op == token.ADD && startRegion[bo.Block()] {
+							inc = true
+						}
+						if bo.Op == token.SUB && endRegion[bo.Block()] {
+							dec = true
+						}
+					}
+					if inc && dec {
+						okc = true
+					}
+				}
+			}
+		}
+		if !okc {
+			why = "start tags do not feed the condition that ends the skipping (no depth counter shared by the StartElement and EndElement cases, no recursion)"
+		}
+	}
+	r.Check("skip-balanced", shortName(fn), fn.Pos(), okc,
+		fmt.Sprintf("%s must balance start and end tags%s", shortName(fn), map[bool]string{true: ": depth is tracked", false: " — " + why + "; an element that contains a nested element of the same name is left too early and the remainder of the enclosing table or paragraph is lost"}[okc]))
+	_ = p
+}
+
+// ---------------------------------------------------------------------------
+// R-CHARDATA-VERBATIM (C03): text read from a w:t (and every other ,chardata field) is stored as
+// read.  A reader that trims, folds or rewrites it changes the text of documents the library
+// itself wrote (cell text is written without xml:space="preserve").
+// ---------------------------------------------------------------------------
+
+func ruleCharDataVerbatim(r *Run) {
+	p := r.P
+	m := buildReaderModel(p)
+	sl := newSlicer(p)
+	n := 0
+	for _, fn := range m.Funcs {
+		allInstrs(fn, func(in ssa.Instruction) {
+			st, ok := in.(*ssa.Store)
+			if !ok {
+				return
+			}
+			fv, _ := fieldOfAddr(st.Addr)
+			if fv == nil {
+				return
+			}
+			o := fieldOwner(p, fv)
+			if o == nil {
+				return
+			}
+			stt := o.Underlying().(*types.Struct)
+			chardata := false
+			for i := 0; i < stt.NumFields(); i++ {
+				if stt.Field(i) == fv && parseXMLTag(stt.Tag(i)).CharData {
+					chardata = true
+				}
+			}
+			if !chardata {
+				return
+			}
+			n++
+			bad := ""
+			for v := range sl.Slice(st.Val).Vals {
+				c, ok := v.(*ssa.Call)
+				if !ok {
+					continue
+				}
+				cn := calleeName(c)
+				for _, pk := range []string{"strings.", "bytes.", "unicode.", "regexp.", "(*regexp.", "(*strings.Replacer)", "html."} {
+					if strings.HasPrefix(cn, pk) {
+						bad = cn
+					}
+				}
+			}
+			r.Check("chardata-verbatim", shortName(fn)+":"+o.Obj().Name()+"."+fv.Name(), st.Pos(), bad == "",
+				fmt.Sprintf("%s stores the character data of <%s> into %s.%s%s", shortName(fn), o.Obj().Name(), o.Obj().Name(), fv.Name(), map[bool]string{true: " as read", false: " after passing it through " + bad + ": leading/trailing or inner characters of the saved text differ after Open"}[bad == ""]))
+		})
+	}
+	r.Min("chardata_stores_in_reader", n, 1)
+}
+
+// ---------------------------------------------------------------------------
+// R-MARSHAL-GUARD (C03): a hand-written MarshalXML may skip a field only because the field itself
+// is absent (nil / empty / zero length).  A guard that calls a predicate on the field's struct
+// ("isEmpty") is accepted only if that predicate looks at EVERY marshalled field of the struct;
+// otherwise a value whose only set attribute is the forgotten one is silently not written.
+// ---------------------------------------------------------------------------
+
+func ruleMarshalGuard(r *Run) {
+	p := r.P
+	n := 0
+	for _, fn := range p.ModFuncs() {
+		if fn.Name() != "MarshalXML" || fn.Signature.Recv() == nil || fn.Pkg == nil || len(fn.Params) == 0 {
+			continue
+		}
+		recv := fn.Params[0]
+		rn := isModStruct(p, recv.Type())
+		if rn == nil {
+			continue
+		}
+		idx := 0
+		allInstrs(fn, func(in ssa.Instruction) {
+			c, ok := in.(ssa.CallInstruction)
+			if !ok || !strings.Contains(calleeName(c), "encoding/xml.Encoder).Encode") || calleeName(c) == "(*encoding/xml.Encoder).EncodeToken" {
+				return
+			}
+			idx++
+			n++
+			bad := ""
+			for _, cond := range controlConds(c) {
+				// calls inside the condition (intra-procedural slice)
+				seen := map[ssa.Value]bool{}
+				var walk func(v ssa.Value)
+				walk = func(v ssa.Value) {
+					if v == nil || seen[v] {
+						return
+					}
+					seen[v] = true
+					if call, ok := v.(*ssa.Call); ok {
+						if cal := staticCallee(call); cal != nil && p.inModule(cal) {
+							if miss := predicateMisses(p, cal); miss != "" {
+								bad = fmt.Sprintf("%s, which does not look at %s", shortName(cal), miss)
+							}
+							return
+						}
+					}
+					if ins, ok := v.(ssa.Instruction); ok {
+						for _, op := range ins.Operands(nil) {
+							if *op != nil {
+								walk(*op)
+							}
+						}
+					}
+				}
+				walk(cond)
+			}
+			r.Check("marshal-guard", fmt.Sprintf("%s#%d", shortName(fn), idx), c.Pos(), bad == "",
+				fmt.Sprintf("encoding step %d of %s%s", idx, shortName(fn), map[bool]string{true: " is conditional only on the presence of what it encodes", false: " is skipped when " + bad + ": a value whose only setting is that field is not written to the part"}[bad == ""]))
+		})
+	}
+	r.Min("encode_steps_in_custom_marshalers", n, 10)
+}
+
+// predicateMisses: for a module predicate with a receiver/parameter of module struct type T that
+// returns bool, the XML-marshalled fields of T it never reads ("" when it reads them all, or when
+// it is not such a predicate).
+func predicateMisses(p *Program, cal *ssa.Function) string {
+	if cal.Signature.Results().Len() != 1 {
+		return ""
+	}
+	if b, ok := cal.Signature.Results().At(0).Type().Underlying().(*types.Basic); !ok || b.Kind() != types.Bool {
+		return ""
+	}
+	if len(cal.Params) == 0 {
+		return ""
+	}
+	n := isModStruct(p, cal.Params[0].Type())
+	if n == nil {
+		return ""
+	}
+	st := n.Underlying().(*types.Struct)
+	read := map[*types.Var]bool{}
+	allInstrs(cal, func(in ssa.Instruction) {
+		switch x := in.(type) {
+		case *ssa.FieldAddr:
+			if fv, _ := fieldOfAddr(x); fv != nil {
+				read[fv] = true
+			}
+		case *ssa.Field:
+			if fv, _ := fieldOfVal(x); fv != nil {
+				read[fv] = true
+			}
+		}
+	})
+	var missing []string
+	for i := 0; i < st.NumFields(); i++ {
+		f := st.Field(i)
+		tag := parseXMLTag(st.Tag(i))
+		if f.Name() == "XMLName" || tag.Skip || !f.Exported() {
+			continue
+		}
+		if !read[f] {
+			missing = append(missing, typeName(n)+"."+f.Name())
+		}
+	}
+	return strings.Join(missing, ", ")
+}
